@@ -162,3 +162,22 @@ for _h in open(os.path.join(VERIF, "contracts/kani/mina/family_harnesses.txt")).
       bound="struct family generated by tools/gen_shapes.py: all 8 #[animate] subsets of a 3-field struct + 12 pseudo-random shapes (1..6 fields)", tests=True, timeout=600)
     K[-1]["harness"] = _h
     K[-1]["id"] = "family::" + _h
+
+SENT = "bounded over sentences: a fixed family of macro sentences covering every grammar production (see contracts/kani/mina/verif_macros.rs); values inside the sentences are literals"
+def km(id, props, clause, tier="quick", kind="contract"):
+    k(id, "PLACEHOLDER", "mina", "tests/verif_macros.rs", props, kind, tier=tier, function="timeline!/animator! expansion vs builder API", clause=clause, bound=SENT, tests=True, timeout=900)
+    K[-1]["harness"] = id
+    K[-1]["flags"] = ["--no-assertion-reach-checks"]
+    K[-1]["assumes"] = ["SubTimeline::from_keyframes replaced by a capturing stub (records every keyframe's position, per-field value or absence, easing, the default value and default easing); override_start_value by a recording stub"]
+km("timeline_basic_seconds_from_to", ["C15"], "`Ns` is the cycle duration in seconds, from = 0%, to = 100%")
+km("timeline_all_arguments", ["C15"], "ms suffix, after = delay, Nx = Times(N), reverse, easing path, N% = N/100, sparse field subsets")
+km("timeline_arguments_in_any_order", ["C15"], "arguments may come in any order; optional `for`")
+km("timeline_for_float_infinite_percent", ["C15"], "`for`, float literal, infinite, a lone N% keyframe")
+km("timeline_underscored_literals", ["C15"], "underscored integer literal, Nx with N=1, 100%")
+km("timeline_defaults_when_omitted", ["C15"], "omitted arguments leave the builder defaults (1 s, no delay, no repeat)")
+km("timeline_merged_list", ["C15", "C16"], "a bracketed list yields a MergedTimeline of its members in order")
+km("animator_inline_defaults_and_arms", ["C16"], "default(state, {fields}) = initial state + values (unlisted fields Default); one arm per state; unmentioned states have no timeline")
+km("animator_expression_default_and_no_default", ["C16"], "default(state, expr) uses the expression; default(state) and no default clause mean Default values / default state")
+km("animator_default_keyframe_and_multi_state_arm", ["C16"], "`default` as a keyframe body stands for the initial values; `A | B =>` installs the same timeline for each state", tier="thorough")
+km("animator_merged_arm", ["C16"], "a bracketed arm installs a merged timeline", tier="thorough")
+km("canary_must_fail", ["C15", "C16"], None, kind="canary")
